@@ -29,13 +29,15 @@ for d in sorted(glob.glob("seeded/C*_*")):
         rp = re.search(r"replay=(\S+)", viol[0]).group(1)
         try: engine = json.load(open(rp)).get("engine") or ""
         except Exception: pass
+    pl = [l.strip() for l in out.splitlines() if l.strip().startswith("engine P:") and "violated" in l]
+    pnote = pl[0] if pl else ""
     still_breaks = "demo_with=1" in v
     meta["verified"] = {"validated_on_current_repo_head": v, "check": f"./check {prop}", "exit": r.returncode,
                         "violation_line": viol[0] if viol else None, "caught_by_engine": engine,
                         "first_violated_contract": first[0][:300] if first else None,
                         "still_property_breaking": still_breaks, "wall_s": round(time.time()-t0,1)}
     json.dump(meta, open(os.path.join(d, "meta.json"), "w"), indent=1)
-    rows.append((name, "detected (exit 1)" if r.returncode == 1 else f"exit {r.returncode}", engine,
+    rows.append((name, "detected (exit 1)" if r.returncode == 1 else f"exit {r.returncode}", engine + (" +P" if pnote and engine != "P" else ""),
                  (first[0][:110] if first else ("no longer property-breaking on the repaired tree" if not still_breaks else "")) ))
     print(rows[-1], flush=True)
 with open("seeded/MATRIX.md", "w") as f:
